@@ -22,6 +22,8 @@ type c14Cfg struct {
 	Locs  []c14Loc `json:"locs"`
 	Names []string `json:"names"`
 	Reqs  [][2]string `json:"reqs"` // host, uri
+	// Rewrites[i]: rewrite rules of location i; routing does not depend on them, whether they compile or not
+	Rewrites [][]string `json:"rewrites,omitempty"`
 }
 
 func genC14Cfg(t *rapid.T) c14Cfg {
@@ -40,6 +42,12 @@ func genC14Cfg(t *rapid.T) c14Cfg {
 			l.Prefixes = append(l.Prefixes, rapid.SampledFrom(prefixPool).Draw(t, "prefix"))
 		}
 		sc.Locs = append(sc.Locs, l)
+		var rw []string
+		for j := rapid.IntRange(0, 2).Draw(t, "nRewrites"); j > 0; j-- {
+			// rules of the accepted a:b shape; some are no regular expressions (pike logs and ignores those)
+			rw = append(rw, rapid.SampledFrom([]string{"/a/*:/$1", "^/api/(v1|v2)/*:/$1/$2", "^/api/(v1|v2/*:/$1", "/x[/*:/y", "/b/*:/c/$1"}).Draw(t, "rewrite"))
+		}
+		sc.Rewrites = append(sc.Rewrites, rw)
 		if rapid.IntRange(0, 3).Draw(t, "listed") > 0 {
 			sc.Names = append(sc.Names, l.Name)
 		}
@@ -55,8 +63,12 @@ func genC14Cfg(t *rapid.T) c14Cfg {
 func execC14Cfg(sc c14Cfg) *vstat.Outcome {
 	out := &vstat.Outcome{}
 	var cfgs []config.LocationConfig
-	for _, l := range sc.Locs {
-		cfgs = append(cfgs, config.LocationConfig{Name: l.Name, Upstream: "u", Hosts: l.Hosts, Prefixes: l.Prefixes})
+	for i, l := range sc.Locs {
+		lc := config.LocationConfig{Name: l.Name, Upstream: "u", Hosts: l.Hosts, Prefixes: l.Prefixes}
+		if i < len(sc.Rewrites) {
+			lc.Rewrites = sc.Rewrites[i]
+		}
+		cfgs = append(cfgs, lc)
 	}
 	location.Reset(cfgs)
 	byName := map[string]c14Loc{}
